@@ -169,6 +169,8 @@ class Batch:
         self.outcomes = {}
         self.crashes = []  # (seed, kind, msg, text)
         self.watchdogs = []
+        self.retried = set()
+        self.transient_watchdogs = 0
 
     def _one(self, idx, seed0, runs):
         procs = self.procs_mix[idx % len(self.procs_mix)]
@@ -195,6 +197,12 @@ class Batch:
                 continue
             # the child died or hung during seed `begun`
             if timed_out:
+                # a real-time stall that does not repeat on the same seed is counted, not reported
+                if begun not in self.retried:
+                    self.retried.add(begun)
+                    self.transient_watchdogs += 1
+                    done = begun - seed0
+                    continue
                 self.watchdogs.append((begun, text))
             else:
                 kind, msg = classify_crash(text)
@@ -350,13 +358,14 @@ def run_check(prop, tier):
     harness_errs = []
     crashes = []
     watchdogs = []
+    transient_watchdogs = 0
     gaps = []
     parts_summary = []
     for pi, part in enumerate(chk["parts"]):
         runs = part["quick"] if tier == "quick" else part.get("thorough", part["quick"] * 20)
         seed0 = (seedbase * 1000003 + pi * 7919) % (1 << 40) * 1000 + 1
         b = Batch(built[part["module"]], part["scenario"], tier, part.get("variant", ""),
-                  tuple(part.get("procs", (1, 2, 4))), timeout=part.get("timeout", 300 if tier == "quick" else 7200))
+                  tuple(part.get("procs", (1, 2, 4))), timeout=part.get("timeout", 150 if tier == "quick" else 7200))
         tp = time.time()
         b.run(seed0, runs)
         parts_summary.append({"scenario": part["scenario"], "runs_requested": runs, "runs_completed": len(b.outcomes),
@@ -388,6 +397,7 @@ def run_check(prop, tier):
             crashes.append((part, seed, kind, msg, text))
         for seed, text in b.watchdogs:
             watchdogs.append((part, seed, text))
+        transient_watchdogs += b.transient_watchdogs
         # two samples per part: re-run the first seeds with plan output
         if len(samples) < 4:
             sseed = seed0
@@ -519,6 +529,7 @@ def run_check(prop, tier):
             "gomaxprocs_mix": [1, 2, 4],
             "build_s": round(build_s, 1),
             "known_findings_hit": sorted(known_hits.keys()),
+            "transient_watchdog_retries": transient_watchdogs,
             "violations_reported": [{"replay": r, "rule": v["rule"], "count": n} for r, v, n in reported],
         },
         "assumptions": chk.get("assumptions", []),
